@@ -10,4 +10,5 @@ Extraction "model.ml"
   Z.add Z.mul Z.sub Z.opp Z.div Z.modulo Z.quotrem Z.compare Z.eqb Z.ltb Z.of_nat Z.to_nat
   fix_offset border_map
   erode_sub dilate_add subm erode_sub_bool dilate_add_bool markerinfo_lt
-  erode_generic dilate_generic erode_spec_all dilate_spec_all nbh_inside all_positions.
+  erode_generic dilate_generic erode_spec_all dilate_spec_all nbh_inside all_positions
+  mh_open mh_close mh_cdilate mh_cerode mh_tophat_open mh_tophat_close psubm.
